@@ -2,7 +2,7 @@
    Full-strength statement: C08_statement (Cluster/Statements.v). Proved so far: the theorems below; what is
    not yet proved is decided on every run by the lock-step co-simulation (model = implementation on every
    explored schedule) together with the monitors run on the implementation's own observations. *)
-From RaftV Require Import Cluster.Statements Proofs.RVSpec Proofs.AESpec Proofs.Votes.
+From RaftV Require Import Cluster.Statements Proofs.RVSpec Proofs.AESpec Proofs.Votes Proofs.VoteRecords.
 Open Scope N_scope.
 
 (* RequestVote, every voter state x every request *)
@@ -46,6 +46,25 @@ Print Assumptions C08_become_follower_keeps_same_term_vote.
 Theorem C08_term_and_vote_durable : C08_statement.
 Proof. exact C08_statement_holds. Qed.
 Print Assumptions C08_term_and_vote_durable.
+
+(* "Within one term a node grants real votes to at most one candidate, counting votes granted before a crash":
+   the RPC records of a world are its history (never deleted); in every reachable world - any cluster, any
+   label list - two real RequestVote responses that grant the vote of the same voter in the same term name the
+   same candidate. *)
+Theorem C08_one_vote_per_term : forall ids boot et ld ls c1 c2 t x y,
+  let w := run (init_world ids boot et ld) ls in
+  In c1 (w_calls w) -> In c2 (w_calls w) ->
+  granted_real c1 t x -> granted_real c2 t y -> c_dst c1 = c_dst c2 -> x = y.
+Proof. exact one_vote_per_term. Qed.
+Print Assumptions C08_one_vote_per_term.
+
+(* a grant is only ever answered after the vote is on disk *)
+Theorem C08_grant_is_durable_before_reply : forall now n q,
+  coh n -> rv_prevote q = false -> rv_granted (snd (h_request_vote now n q)) = true ->
+  let n' := fst (h_request_vote now n q) in
+  n_frozen n' = false -> n_pterm n' = rv_term q /\ n_pvote n' = Some (rv_cand q).
+Proof. exact rv_grant_recorded. Qed.
+Print Assumptions C08_grant_is_durable_before_reply.
 
 (* non-vacuity: a concrete schedule in which a node casts a real vote, crashes, restarts, and still holds it *)
 Example C08_nonvacuous :
